@@ -23,8 +23,17 @@ Oracle (all recomputed with NumPy from the site tensors, never with the library'
               every Schmidt rank of the exact product: relative error <= 1e-6 with the default
               configuration; both methods from an exact guess with percent = 0 (fixed point)
 
-Signatures: ``<routine>:<input class>:<failure>``.  Known defect re-found here:
-  D14  canonicalise:empty-sweep:UnboundLocalError   (one-site chain, or stop site == start site)
+Signatures: ``<routine>:<input class>:<failure>``.  Defects found (each reproduced by hand):
+  D14  canonicalise:empty-sweep:UnboundLocalError   one-site chain, or stop site == start site
+       (pinned tree ee24c78; repaired by a fix: commit)
+  new  compress-ret_s:one-site:ValueError           compress(ret_s=True) on a one-site chain: max() of
+       an empty list of singular-value arrays
+  new  compress:mpo:uniform-limit-above-local-rank:object-changed
+       Mpo.compress keeps the singular values in the site it leaves (u*sigma) instead of carrying them
+       along the sweep; with one limit M >= every Schmidt rank but above the rank of an earlier bond,
+       zero-weight directions survive there and displace real ones at the next bond (errors of 10 %)
+  new  variational:sector-starved:stalled           variational_compress (default configuration) stalls
+       when the iterate holds fewer states of a symmetry sector on some bond than the product needs
 """
 import time
 
